@@ -15,7 +15,7 @@ import z3
 from . import ops
 from .ops import LAM
 from .ops import Unsupported
-from .values import (Sym, SChar, SSeq, SSet, SDict, RandVal, Choice, Obj, ExcVal, Opaque, I, R, B, AI, AR, AB,
+from .values import (Sym, SChar, SSeq, SSet, SDict, ASet, RandVal, Choice, Obj, ExcVal, Opaque, I, R, B, AI, AR, AB,
                      wrap_elem, is_symbolic)
 from .sandbox import float_const_to_fraction
 
@@ -56,7 +56,7 @@ class RangeVal:
         self.lo, self.hi, self.step, self.nd = lo, hi, step, nd
 
     def concrete(self):
-        return all(isinstance(x, int) for x in (self.lo, self.hi, self.step))
+        return all(isinstance(x, int) and not isinstance(x, bool) for x in (self.lo, self.hi, self.step))
 
 
 class EnumVal:
@@ -182,6 +182,10 @@ class Interp:
             inner = self.fresh_typed(prefix, ty[9:-1])
             b = z3.Bool(self.fresh_name(prefix + '.isnone'))
             return Choice([(b, None), (z3.Not(b), inner)])
+        if ty == 'aset':
+            c = z3.Int(self.fresh_name(prefix + '.card'))
+            self.assume(c >= 0)
+            return ASet(c)
         if ty.startswith('sdict['):
             ek = ty[6:-1]
             nm = self.fresh_name(prefix)
@@ -793,6 +797,8 @@ class Interp:
             self.dropped.add('call of %s.%s' % (base.what, attr))
             return Opaque('%s.%s()' % (base.what, attr))
         from . import models as M
+        if attr in MUTATORS and base_node is not None and isinstance(base, (list, dict, set)):
+            self.check_not_global(base_node, fr)
         if isinstance(base, RandVal) and attr == 'shuffle':
             arg_node = node.args[0] if node is not None and node.args else None
             if arg_node is None:
@@ -801,7 +807,7 @@ class Interp:
             return None
         if isinstance(base, RandVal):
             return M.rand_method(self, fr, base, attr, args, kwargs)
-        if isinstance(base, (Sym, SChar, SSeq, SSet, str, list, dict, set, tuple, frozenset, int, Fraction, RangeVal)):
+        if isinstance(base, (Sym, SChar, SSeq, SSet, ASet, str, list, dict, set, tuple, frozenset, int, Fraction, RangeVal)):
             res, newbase, mutated = M.value_method(self, fr, base, attr, args, kwargs)
             if mutated:
                 if base_node is None:
@@ -983,6 +989,7 @@ class Interp:
                 return
             raise Unsupported('attribute assignment on %r' % (base,))
         if isinstance(t, ast.Subscript):
+            self.check_not_global(t.value, fr)
             base = self.eval(t.value, fr)
             if isinstance(t.slice, ast.Slice):
                 raise Unsupported('slice assignment')
@@ -1029,6 +1036,14 @@ class Interp:
                 return
             raise Unsupported('subscript assignment on %r' % (base,))
         raise Unsupported('assignment target %s' % type(t).__name__)
+
+    def check_not_global(self, node, fr):
+        """module-level state is assumed constant: a write to it (history-dependent behaviour) leaves the subset"""
+        root = node
+        while isinstance(root, (ast.Subscript, ast.Attribute)):
+            root = root.value
+        if isinstance(root, ast.Name) and root.id not in fr.env and root.id in fr.ns and not fr.spec:
+            raise Unsupported('write to module-level state `%s` (line %s): module globals are assumed constant' % (root.id, getattr(node, 'lineno', '?')))
 
     def s_Return(self, s, fr):
         raise Returned(self.eval(s.value, fr) if s.value is not None else None)
@@ -1457,6 +1472,8 @@ class Interp:
                 ek = 'int' if eks <= {'int', 'bool'} else list(eks - {'int', 'bool'})[0]
                 return self.fresh_seq(name, 'list' if isinstance(v, list) else 'tuple', ek)
             raise Unsupported('cannot havoc %s (list of unknown element type): give a type in the loop spec' % name)
+        if isinstance(v, ASet) or (isinstance(v, (set, frozenset)) and len(v) == 0):
+            return self.fresh_typed(name, 'aset')
         if isinstance(v, SDict):
             nm = self.fresh_name(name)
             return SDict(z3.Const(nm + '.dom', AB), z3.Const(nm + '.val', {'char': AI, 'int': AI, 'real': AR}[v.ek]), v.ek)
@@ -1494,6 +1511,9 @@ class Interp:
         names, fields = fr._havoced
         key = (fr.fi.key, o)
         changed = False
+        typed = set(((self.loops.get(fr.fi.key) or {}).get(o) or {}).get('types', {}))
+        names = [n for n in names if n not in typed]
+        fields = [(a, b) for (a, b) in fields if '%s.%s' % (a, b) not in typed]
         for n in names:
             v = fr.env.get(n)
             if ops.kind_of(v) == 'real' and n not in self.promote.get(key, set()):
